@@ -51,6 +51,11 @@ def reply_scenarios(tier):
     S.append(dict(ops=[('auth', 'n1', 'SRV', 'n3'), ('auth', 'n3', 'A', None), ('auth', 'n5', 'A', None)], q=[('n1', 'SRV', 'IN')]))
     S.append(dict(ops=[('cached', 'n1', 'A', None), ('auth', 'n1', 'TXT', None)], q=[('n1', 'ANY', 'ANY')]))
     S.append(dict(ops=[('auth', 'n1', 'A', None)], q=[('n1', 'SRV', 'IN'), ('n1', 'A', 'IN')]))
+    # SRV whose target (n3) has an address record AND a subdomain (n1 = x.n3) with another address record
+    S.append(dict(ops=[('auth', 'n6', 'SRV', 'n3'), ('auth', 'n3', 'A', None), ('auth', 'n1', 'A', None)], q=[('n6', 'SRV', 'IN')]))
+    # removal of a record that may or may not be the registered one (same owner, independent RDATA)
+    S.append(dict(ops=[('auth', 'n1', 'A', None), ('remove', 'n1', 'A', None)], q=[('n1', 'A', 'IN')]))
+    S.append(dict(ops=[('auth', 'n1', 'A', None), ('auth', 'n1', 'TXT', None), ('remove', 'n1', 'A', None)], q=[('n1', 'ANY', 'ANY')]))
     S.append(dict(ops=[], q=[('n1', 'ANY', 'ANY')]))
     S.append(dict(ops=[('auth', 'n1', 'A', None)], q=[]))
     if tier == 'thorough':
@@ -186,10 +191,18 @@ def run_task(prog, tid, params, tier):
         if part == 'reply':
             L.append('    let mut mgr = ResourceRecordManager::new();')
             L.append('    let mut recs: Vec<(bool, ResourceRecord<\'static>)> = Vec::new();')
-            for (kind, owner, rtype, extra, rec, cls) in I.recs:
-                L.append('    let r = %s;' % rs_record(m, I, pool, owner, rtype, extra, rec, cls))
-                L.append('    recs.push((%s, r.clone()));' % ('true' if kind == 'auth' else 'false'))
-                L.append('    mgr.%s(r);' % ('add_authoritative_resource' if kind == 'auth' else 'add_cached_resource'))
+            steps = [(x[6], 'add', x) for x in I.recs] + [(x[0], 'rm', x) for x in I.removed]
+            for _, what_, x in sorted(steps, key=lambda t: t[0]):
+                if what_ == 'add':
+                    (kind, owner, rtype, extra, rec, cls, _k) = x
+                    L.append('    let r = %s;' % rs_record(m, I, pool, owner, rtype, extra, rec, cls))
+                    L.append('    recs.push((%s, r.clone()));' % ('true' if kind == 'auth' else 'false'))
+                    L.append('    mgr.%s(r);' % ('add_authoritative_resource' if kind == 'auth' else 'add_cached_resource'))
+                else:
+                    (_k, owner, rtype, rec, cls) = x
+                    L.append('    let r = %s;' % rs_record(m, I, pool, owner, rtype, None, rec, cls))
+                    L.append('    recs.retain(|(_, x)| !(*x == r));')
+                    L.append('    mgr.remove_resource_record(&r);')
             L.append('    let mut query = Packet::new_query(%d);' % VG.ev(m, I.pid))
             L.append('    let mut questions = Vec::new();')
             for (qn, qt, qc, uni) in I.qs:
@@ -310,9 +323,14 @@ def run_task(prog, tid, params, tier):
             g = pool.g
             mgr = I.new_ref(I.call_function(f_new, [], {}), 'mgr')
             I.recs = []
+            I.removed = []
             for k, (kind, owner, rtype, extra) in enumerate(sc['ops']):
                 rec, cls = mk_record(I, pool, owner, rtype, extra, str(k))
-                I.recs.append((kind, owner, rtype, extra, rec, cls))
+                if kind == 'remove':
+                    I.removed.append((k, owner, rtype, rec, cls))
+                    I.call_function(f_rm, [mgr, I.new_ref(rec, 'rm')], {})
+                    continue
+                I.recs.append((kind, owner, rtype, extra, rec, cls, k))
                 I.call_function(f_add_a if kind == 'auth' else f_add_c, [mgr, rec], {})
             qs = []
             I.qs = []
@@ -347,13 +365,19 @@ def run_task(prog, tid, params, tier):
                 return qc == 'ANY' or qc == cls
             # per (record, question): z3 conditions
             exact, below = [], []
-            for (kind, owner, rtype, extra, rec, cls) in I.recs:
+            for (kind, owner, rtype, extra, rec, cls, k_add) in I.recs:
+                # still registered: no later removal of an equal record (equality as the store keys it: owner, class, RDATA)
+                alive = z3.BoolVal(True)
+                for (k_rm, o_rm, t_rm, r_rm, c_rm) in I.removed:
+                    if k_rm > k_add and t_rm == rtype and c_rm == cls:
+                        same = z3.And(name_eq(pool.labels(owner), pool.labels(o_rm)), deep_eq(I, rec.f[3], r_rm.f[3]))
+                        alive = z3.And(alive, z3.Not(same))
                 e, b = [], []
                 for (qn, qt, qc, uni) in I.qs:
                     ok = kind == 'auth' and tmatch(rtype, qt) and cmatch(cls, qc)
                     lo, lq = pool.labels(owner), pool.labels(qn)
-                    e.append(z3.And(z3.BoolVal(ok), name_eq(lo, lq)))
-                    b.append(z3.And(z3.BoolVal(ok), z3.Or(name_eq(lo, lq), name_sub(lo, lq))))
+                    e.append(z3.And(z3.BoolVal(ok), alive, name_eq(lo, lq)))
+                    b.append(z3.And(z3.BoolVal(ok), alive, z3.Or(name_eq(lo, lq), name_sub(lo, lq))))
                 exact.append(z3.Or([z3.BoolVal(False)] + e))
                 below.append(z3.Or([z3.BoolVal(False)] + b))
             must_answer = z3.Or([z3.BoolVal(False)] + exact)
